@@ -81,7 +81,7 @@ def c14_families(tier):
         ex.append(fam("X", "str", DQ, S("\\X"), [DQ, BS, 103, 43, 88, EACUTE], 4))
         ex.append(fam("sq", "str", SQ, [], [BS, DQ, SQ, 97, 48, 120, 43], 5))
         ex.append(fam("ws", "str", DQ, [], [BS, DQ, SQ, 9, 10, 13, 32, 97, 63, 116], 4))
-        ex.append(fam("num", "num", 0, [], [48, 49, 50, 53, 55, 57, 101, 120, 46, 43, 45], 5))
+        ex.append(fam("num", "num", 0, [], [48, 49, 50, 53, 57, 101, 120, 46, 43, 45], 5))
         ex.append(fam("numa", "num", 0, [], [48, 49, 57, 97, 102, 69, 88, 120, 46, 45], 4))
         ex.append(fam("numx", "num", 0, S("0"), [48, 55, 57, 102, 70, 120, 88, 46, 101], 6))
     else:
@@ -436,7 +436,14 @@ def run_c26(pid, tier, replay):
         b, t, src = todo[idx]
         rejected += 1
         rej_by_src[src] += 1
-        verdict.disagree("trace:" + src, {"b": list(b), "esc": None, "real_text": list(t)},
+        esc = None                      # the specification's text for b, so that the case can be replayed
+        with open(casefile) as fh:
+            for line in fh:
+                o = json.loads(line)
+                if tuple(o["b"]) == tuple(b):
+                    esc = o["esc"]
+                    break
+        verdict.disagree("trace:" + src, {"b": list(b), "esc": esc, "real_text": list(t)},
                          "text produced by the real code (%s) does not read back to the bytes under Escape.tla: %r"
                          % (src, bytes(t)))
         tstates += idx
